@@ -263,13 +263,15 @@ SPEC = {
     "lean_modules": ["RsslVerif.Thm.C11"],
     "theorems": [T + n for n in [
         "chain_tables_agree", "automaton_refines_tree", "automaton_refines_tree_any_stack",
-        "inactive_has_no_effect", "inactive_if_not_evaluated", "unmatched_rejected", "well_nested_accepted",
-        "tree_lines_are_grammatical", "else_after_else_accepted", "elif_after_else_accepted",
+        "inactive_has_no_effect", "inactive_if_not_evaluated", "unmatched_rejected", "strict_grammar_enforced",
+        "well_nested_accepted", "tree_lines_are_grammatical", "else_after_else_rejected", "elif_after_else_rejected",
         "dead_elif_is_evaluated", "cond_tables_agree", "cond_parser_total", "cond_parse_eval",
         "cond_parse_eval_closed", "cond_parse_tokens", "cond_parse_unambiguous", "cond_rejects_illformed",
         "total_of_no_operands", "total_under_literal_macros",
         "literalMacros_define", "literalMacros_undef", "literalMacros_nil",
-        "include_shares_chain", "if_closed_by_includers_endif_accepted", "else_of_other_file_accepted",
+        "included_file_is_balanced", "includers_blocks_untouched", "include_cannot_touch_includers_chain",
+        "if_closed_by_includers_endif_rejected", "else_of_other_file_rejected",
+        "nonname_directive_ignored_when_skipped",
         "defined_is_protected", "cond_eval_composed", "composed_shape_agree"]],
     "harness": "c11",
     "nontrivial": nontrivial,
@@ -280,8 +282,10 @@ SPEC = {
     "level_text": "Proof: (1) the model of ConditionChain + the gating of preprocess_command (transition table, gating table, "
                   "error variants re-extracted from the source each run) is proved, for every nesting of "
                   "#if/#ifdef/#ifndef/#elif/#else/#endif groups of any depth and length, to keep exactly the text and macro "
-                  "definitions the tree-shaped C selection rule keeps, to ignore every line of an unselected group, and to "
-                  "reject exactly the unterminated / unmatched sequences with the right error variant; (2) the model of "
+                  "definitions the tree-shaped C selection rule keeps, to ignore every line of an unselected group (also a "
+                  "directive that does not start with a name), and to accept exactly the line sequences of the C grammar "
+                  "of if-sections: unterminated / unmatched sequences, a second #else and an #elif after #else are "
+                  "rejected with the right error variant; (2) the model of "
                   "condition_parser.rs (operator tables, BinOp::apply, leaf arms re-extracted each run) is proved on the token "
                   "level: it accepts exactly the C grammar of conditions over || && == != < <= > >= ! parentheses literals "
                   "identifiers (ill-formed sequences rejected), its parse is the unique syntax tree of the sequence modulo "
@@ -289,9 +293,11 @@ SPEC = {
                   "token-level model of preprocess.rs (C11 tables + the C12 macro engine + the per-file token loop + "
                   "#include) `defined X`/`defined(X)` is proved to be replaced by 1/0 by name existence without expanding X, "
                   "object-like macros with identifier-free bodies to be expanded before evaluation, and printed condition "
-                  "trees to evaluate to their reference value; (4) the condition chain is proved to be shared across "
-                  "#include for every includer state, with end-to-end negation witnesses of the per-file C rule "
-                  "(known findings).",
+                  "trees to evaluate to their reference value; (4) every file's conditionals are proved to balance on their "
+                  "own: for every handler, file and includer state a successfully included file hands the condition "
+                  "chain back unchanged, the includer's blocks are never touched meanwhile, and #endif / #else / an "
+                  "unclosed #ifdef in an included file are rejected with EndIfNotMatched / ElseNotMatched / "
+                  "ConditionChainNotFinished (the former negation witnesses, now rejected end to end).",
     "rule": "requests through the real rssl_preprocess::preprocess: exhaustive directive sequences over the property's "
             "10-symbol alphabet up to length 6 (quick) / 7 (thorough); random sequences of length <= 25 over an extended "
             "alphabet; random #if conditions to depth 5 over literals {0,1,2,5,7,2^32-1,2^32,2^63,2^64-1}, macros and "
@@ -305,10 +311,11 @@ SPEC = {
             "an #elif/#else and text (sequences, raw) or a binary operator (conditions)",
     "trusted_base": [
         "Lean 4.33 kernel; axioms propext / Classical.choice / Quot.sound only (audited by #print axioms)",
-        "tools/translate.py + tools/gens/c11.py (CondTables: ConditionState, ConditionChain::switch/pop/is_active, the "
-        "skip gating of every preprocess_command arm, BinOp::apply, every parse_pN::parse_op, parse_p2, parse_leaf, "
-        "MAX_INCLUDE_DEPTH, that #include passes the includer's chain on unchecked, that `defined` is tested before the "
-        "macro loop and only in #if/#elif) and tools/gens/c12.py (MacroTables, used by the imported C12 macro model) — "
+        "tools/translate.py + tools/gens/c11.py (CondTables: ConditionState, ConditionBlock, "
+        "ConditionChain::new/push/switch/pop/is_active incl. the seen_else test and the file base, the name split and "
+        "the skip gating of every preprocess_command arm, BinOp::apply, every parse_pN::parse_op, parse_p2, parse_leaf, "
+        "MAX_INCLUDE_DEPTH, the per-file block count of preprocess_included_file (enter / check / restore), the "
+        "line-break test on API defines, that `defined` is tested before the macro loop and only in #if/#elif) and tools/gens/c12.py (MacroTables, used by the imported C12 macro model) — "
         "re-run on /repo's working tree every time",
         "hand-written recursion scheme of Model/CondExpr.lean, line processing of Model/CondChain.lean, and the "
         "composed token-level Model/CondFile.lean (built on C12's Model/Macro.lean + Model/Include.lean); tied to the "
@@ -323,7 +330,7 @@ SPEC = {
         "theorems about selection (automaton_refines_tree) are stated for object-like macros with identifier-free bodies "
         "and included files that hold ordinary text; function-like macros, rescanning and directives inside included "
         "files are covered by the composed model Model/CondFile.lean, for which cond_eval_composed / "
-        "defined_is_protected / include_shares_chain are proved and everything else is checked by correspondence",
+        "defined_is_protected / included_file_is_balanced are proved and everything else is checked by correspondence",
         "cond_eval_composed covers #if lines made of non-macro tokens, `defined` operators (any operand) and object-like "
         "macros with identifier-free bodies; invocations of function-like macros and identifier-bearing bodies inside "
         "conditions are checked by correspondence only (expansion itself is C12's property)",
